@@ -142,6 +142,10 @@ def composites(leaf):
     K("ext", {"oneOf": [{"type": "string", "enum": ["U"]},
                         obj({"N": s}, ["N"], additionalProperties=False),
                         obj({"S": obj({"x": s, "y": INT}, ["x"])}, ["S"], additionalProperties=False)]})
+    K("ext_nt_closed", {"oneOf": [obj({"N": s}, ["N"], additionalProperties=False),
+                                  obj({"S": obj({"x": INT, "y": INT}, ["x"], additionalProperties=False)}, ["S"], additionalProperties=False)]})
+    K("ext_closed_nt", {"oneOf": [obj({"S": obj({"x": INT, "y": INT}, ["x"], additionalProperties=False)}, ["S"], additionalProperties=False),
+                                  obj({"N": s}, ["N"], additionalProperties=False)]})
     K("ext_tuple", {"oneOf": [obj({"T": {"type": "array", "items": [s, INT], "minItems": 2, "maxItems": 2}}, ["T"], additionalProperties=False),
                               obj({"N": INT}, ["N"], additionalProperties=False)]})
     K("int_tag", {"oneOf": [obj({"t": {"type": "string", "enum": ["A"]}, "x": s}, ["t", "x"]),
